@@ -7,7 +7,7 @@ MU = 2**29
 PATTERNS = {0: 'separate result', 1: 'result = a', 2: 'result = b', 3: 'result = c', 4: 'a = b (one object)', 5: 'result = a = b = c (one object)', 6: 'inputs in read-only memory'}
 FRAME = ['tfhe_bootstrap_FFT', 'tfhe_bootstrap_woKS_FFT', 'tfhe_bootstrap', 'tfhe_bootstrap_woKS', 'lweKeySwitch', 'tLweExtractLweSample', 'tLweExtractLweSampleIndex',
          'tGswFFTExternMulToTLwe', 'tGswExternMulToTLwe', 'tGswTLweDecompH', 'tfhe_blindRotate_FFT', 'tfhe_blindRotateAndExtract_FFT', 'tLweMulByXaiMinusOne', 'tLweAddTo',
-         'tGswTLweDecompH (noiseless trivial sample)', 'tGswTorus32PolynomialDecompH (zero polynomial)', 'tGswExternProduct (noiseless trivial operand, twice)', 'tfhe_bootstrap_FFT (noiseless trivial input)']
+         'tGswTLweDecompH (noiseless trivial sample)', 'tGswTorus32PolynomialDecompH (zero polynomial)', 'tGswExternProduct (noiseless trivial operand, twice)', 'tfhe_bootstrap_FFT (noiseless trivial input)', 'bootsNAND and tfhe_bootstrap_FFT as the first FFT use of a fresh thread']
 
 def run(ctx):
     import os; os.environ['MALLOC_PERTURB_'] = '165'     # every block the harness processes get from or return to the allocator is filled: memory that a routine never wrote does not look like zeros by luck
